@@ -582,8 +582,8 @@ def run(tier):
                 tjobs.append((nm, tier, [dd], "d%d" % dd, thorough or i == 1))
         tiny_async = pool.map_async(_record_tiny, tjobs, chunksize=1)
         ora_async = pool.map_async(_oracle_curve, [(i, tier, wd) for i in range(17)], chunksize=1)
-        hpool = ctx.Pool(2, maxtasksperchild=1)          # histories: each in a fresh process of its own
-        hist_async = hpool.map_async(_oracle_history, [(tier, wd, 0), (tier, wd, 1)], chunksize=1)
+        # histories: each in a fresh interpreter of its own
+        hist_async = eclib.FreshJobs(os.path.join(wd, "fresh"), "harness.checks.c18", "_oracle_history", [(tier, wd, 0), (tier, wd, 1)])
 
         # ---------------------------------------------------------------- MC while the recorders run
         def mc(job):
@@ -617,7 +617,7 @@ def run(tier):
             ora = list(ora_async.get(timeout=3000)) + list(hist_async.get(timeout=3000))
         finally:
             pool.terminate()
-            hpool.terminate()
+            hist_async.terminate()
 
         tiny = {}
         for nm, part, evs in tiny_parts:
